@@ -46,7 +46,7 @@ THEOREMS = [
     # row lists, BranchFeatures.get_length, and the sum of the translated branch lengths = the translated Tree.length
     "RefineNf2.assign_depth_eq", "RefineNf2.spec_depth", "RefineNf2.branch_order_refines", "RefineNf2.furcation_nodes_refines",
     "RefineNf2.tip_nodes_refines", "RefineNf2.subset_count_refines", "RefineNf2.subset_radial_refines", "RefineNf2.path_length_refines",
-    "RefineNf2.bf_length_refines", "RefineNf2.calc_angle_refines", "C10.generated_calc_angle",
+    "RefineNf2.bf_length_refines", "RefineNf2.calc_angle_refines", "C10.generated_calc_angle", "C10.generated_calc_angle_degenerate",
     "C10.generated_nf_branch_order", "C10.generated_nf_branch_order_tree", "C10.generated_furcation_nodes", "C10.generated_tip_nodes",
     "C10.generated_furcation_count", "C10.generated_tip_count", "C10.generated_furcation_radial", "C10.generated_tip_radial",
     "C10.generated_path_length", "C10.generated_bf_length", "C10.generated_sum_branch_lengths_eq_tree_length",
@@ -653,8 +653,9 @@ class Features(Suite):
             brs_lib = sorted(tr["branches"])
             if len(A) == len(brv):
                 # the library's branch order is its own: compare the multiset of pairwise angles
-                want = sorted(round(math.acos(max(-1.0, min(1.0, float(np.dot(u, w) / (np.linalg.norm(u) * np.linalg.norm(w) + 1e-7))))), 3)
-                              for u in brv for w in brv)
+                # (cosine 0 - a right angle - where one of the two branches has length zero; no absolute term in the divisor: scale free)
+                cosd = lambda u, w: float(np.dot(u, w) / (np.linalg.norm(u) * np.linalg.norm(w))) if np.linalg.norm(u) * np.linalg.norm(w) != 0 else 0.0
+                want = sorted(round(math.acos(max(-1.0, min(1.0, cosd(u, w)))), 3) for u in brv for w in brv)
                 got = sorted(round(float(v), 3) for row in A for v in row)
                 if len(got) != len(want) or any(abs(a - b) > 2e-3 for a, b in zip(got, want)):
                     out.append(("branch-angle", f"BranchFeatures.get_angle() {got[:6]}… differs from the pairwise angles of the branches' end-to-end vectors {want[:6]}…"))
@@ -1853,13 +1854,13 @@ class NodeFeat(Suite):
                 return len(xs) == 3 and _nf_close(q[0], xs[0]) and _nf_close(q[1], xs[1]) and _nf_close(q[2], xs[2], plen(p))
             out.append((f"{rt} what=pathq idx={gen.ints(p)}", Expect(pq, str(q))))
         if res["branches"]:
-            # the angle matrix with norm := the squared norm and acos := the identity, eps exact: recomputed here from the inputs; the real
-            # angles are compared with arccos(clip(dot / (|u||v| + eps))) of the SAME vectors
-            eps = Fraction(1, 10 ** 7)
+            # the angle matrix with norm := the squared norm and acos := the identity: recomputed here from the inputs (the divisor is the
+            # product of the norms, 1 where that product is 0; the `eps` handed in is ignored); the real angles are compared with
+            # arccos(clip(dot / (|u||v|))) of the SAME vectors (cosine 0 where a branch has length zero)
             V = [[P[b[-1]][k] - P[b[0]][k] for k in range(3)] for b in res["branches"]]
             dot = lambda u, w: sum(x * y for x, y in zip(u, w))
             clip = lambda x: max(Fraction(-1), min(Fraction(1), x))
-            want = ";".join(",".join(str(clip(Fraction(dot(u, w)) / (dot(u, u) * dot(w, w) + eps))) for w in V) for u in V)
+            want = ";".join(",".join(str(clip(Fraction(dot(u, w)) / (dot(u, u) * dot(w, w) or 1))) for w in V) for u in V)
             out.append((f"{sqm} what=angle eps=1/10000000", want))
         return out
 
@@ -1872,7 +1873,8 @@ class NodeFeat(Suite):
             V = [P[b[-1]] - P[b[0]] for b in res["branches"]]
             for i, u in enumerate(V):
                 for j, w in enumerate(V):
-                    want = math.acos(max(-1.0, min(1.0, float(u @ w) / (float(np.linalg.norm(u)) * float(np.linalg.norm(w)) + 1e-7))))
+                    den = float(np.linalg.norm(u)) * float(np.linalg.norm(w))
+                    want = math.acos(max(-1.0, min(1.0, float(u @ w) / den))) if den != 0 else math.pi / 2
                     if abs(res["angle"][i][j] - want) > 2e-3:
                         out.append(("branch-angle", f"angle between branches {res['branches'][i]} and {res['branches'][j]}: {res['angle'][i][j]}, definition {want}"))
         return out[:3]
